@@ -24,6 +24,137 @@ fn fresh(d: &Difficulty, map: &Beatmap, mode: GameMode) -> Option<GradualDifficu
     }
 }
 
+/// The same iterator protocol on the mode-specific calculator types (`OsuGradualDifficulty`, ...), which carry their own
+/// `Iterator` implementations, exercised through the *consuming* adaptors (`last`, `skip(k).last()`, `count`, `step_by`,
+/// `nth` by value) after a partial walk. `sd` is the plain-iteration reference of the enum-typed calculator.
+fn typed_programs<I>(ctx: &mut Ctx, rng: &mut Rng, mname: &str, pred: &str, text: &str, wrap: &str, sd: &[String], mk: &dyn Fn() -> Option<I>)
+where
+    I: ExactSizeIterator,
+    I::Item: std::fmt::Debug,
+{
+    let total = sd.len();
+    let d = |v: &I::Item| format!("{wrap}({v:?})");
+    let fail = |ctx: &mut Ctx, clause: &str, msg: String| {
+        ctx.violation(&format!("C15/{mname}/typed/{clause}/{pred}"), &format!("{msg} (mode-specific calculator type, total {total})"), Some(text));
+    };
+    // plain iteration of the typed calculator is the enum's sequence
+    let Some(g) = mk() else { return };
+    let announced = g.len();
+    let r = guard(|| bracket("gradual_difficulty::typed", || g.map(|v| d(&v)).collect::<Vec<String>>()));
+    ctx.eval();
+    match r {
+        Ok(seq) => {
+            if seq != sd || announced != total {
+                fail(ctx, "sequence", format!("typed calculator yields {} values (announced {announced}), the enum-typed one {total}; equal values: {}", seq.len(), seq.iter().zip(sd).filter(|(a, b)| a == b).count()));
+                return;
+            }
+        }
+        Err(p) => {
+            fail(ctx, &format!("panic/{}", p.sig()), format!("plain iteration panicked: {} at {}", p.msg, p.loc));
+            return;
+        }
+    }
+    for _ in 0..6 {
+        let Some(mut g) = mk() else { return };
+        let k = c03::gen_k(rng, total).min(total + 3);
+        let walked = k.min(total);
+        let opn = rng.below(7);
+        let r = guard(|| {
+            bracket("gradual_difficulty::typed", || -> Result<(), String> {
+                for _ in 0..k {
+                    if g.next().is_none() {
+                        break;
+                    }
+                }
+                let rem = total - walked;
+                match opn {
+                    0 => {
+                        let got = g.last().map(|v| d(&v));
+                        let want = if rem > 0 { sd.last().cloned() } else { None };
+                        if got != want {
+                            return Err(format!("last() by value after {walked} next(): is_some={} expected is_some={}", got.is_some(), want.is_some()));
+                        }
+                    }
+                    1 => {
+                        let j = rng_free_index(k, rem);
+                        let got = g.skip(j).last().map(|v| d(&v));
+                        let want = if j < rem { sd.last().cloned() } else { None };
+                        if got != want {
+                            return Err(format!("skip({j}).last() after {walked} next(): is_some={} expected is_some={}", got.is_some(), want.is_some()));
+                        }
+                    }
+                    2 => {
+                        let c = g.count();
+                        if c != rem {
+                            return Err(format!("count() by value after {walked} next(): {c}, expected {rem}"));
+                        }
+                    }
+                    3 => {
+                        let j = rng_free_index(k, rem);
+                        let c = g.skip(j).count();
+                        if c != rem.saturating_sub(j) {
+                            return Err(format!("skip({j}).count() after {walked} next(): {c}, expected {}", rem.saturating_sub(j)));
+                        }
+                    }
+                    4 => {
+                        let step = 1 + k % 4;
+                        let got = g.step_by(step).map(|v| d(&v)).collect::<Vec<_>>();
+                        let want: Vec<String> = sd.iter().skip(walked).step_by(step).cloned().collect();
+                        if got != want {
+                            return Err(format!("step_by({step}) by value after {walked} next(): {} values, expected {}", got.len(), want.len()));
+                        }
+                    }
+                    5 => {
+                        let (l, sh) = (g.len(), g.size_hint());
+                        if l != rem || sh != (rem, Some(rem)) {
+                            return Err(format!("len()/size_hint() after {walked} next(): {l} / {sh:?}, expected {rem}"));
+                        }
+                    }
+                    _ => {
+                        let j = rng_free_index(k, rem);
+                        let got = g.nth(j).map(|v| d(&v));
+                        let want = if j < rem { sd.get(walked + j).cloned() } else { None };
+                        if got != want {
+                            return Err(format!("nth({j}) after {walked} next(): is_some={} expected is_some={}", got.is_some(), want.is_some()));
+                        }
+                        let l = g.len();
+                        let want_l = rem.saturating_sub(j + 1);
+                        if l != want_l {
+                            return Err(format!("len() after nth({j}) after {walked} next(): {l}, expected {want_l}"));
+                        }
+                    }
+                }
+                Ok(())
+            })
+        });
+        ctx.eval();
+        ctx.count("typed_programs");
+        match r {
+            Ok(Ok(())) => {}
+            Ok(Err(msg)) => {
+                let clause = msg.split(['(', ' ']).next().unwrap_or("op").to_string();
+                fail(ctx, &clause, msg);
+                return;
+            }
+            Err(p) => {
+                fail(ctx, &format!("panic/{}", p.sig()), format!("panic: {} at {} (op {opn}, after {walked} next())", p.msg, p.loc));
+                return;
+            }
+        }
+    }
+}
+
+/// A second index derived from the first without touching the generator inside the guarded closure.
+fn rng_free_index(k: usize, rem: usize) -> usize {
+    match k % 5 {
+        0 => 0,
+        1 => 1,
+        2 => rem.saturating_sub(1),
+        3 => rem,
+        _ => rem / 2,
+    }
+}
+
 #[allow(clippy::too_many_lines)]
 pub fn case(ctx: &mut Ctx, idx: u64) {
     let mut rng = Rng::for_case(ctx.seed, "C15", idx);
@@ -258,6 +389,18 @@ pub fn case(ctx: &mut Ctx, idx: u64) {
         }
         if failed {
             break;
+        }
+    }
+
+    // mode-specific calculator types, consuming adaptors
+    {
+        use rosu_pp::{catch::CatchGradualDifficulty, mania::ManiaGradualDifficulty, osu::OsuGradualDifficulty, taiko::TaikoGradualDifficulty};
+        let text = mc.text.as_str();
+        match mode {
+            GameMode::Osu => typed_programs(ctx, &mut rng, mname, &pred, text, "Osu", &sd, &|| OsuGradualDifficulty::new(d.clone(), &map).ok()),
+            GameMode::Taiko => typed_programs(ctx, &mut rng, mname, &pred, text, "Taiko", &sd, &|| TaikoGradualDifficulty::new(d.clone(), &map).ok()),
+            GameMode::Catch => typed_programs(ctx, &mut rng, mname, &pred, text, "Catch", &sd, &|| CatchGradualDifficulty::new(d.clone(), &map).ok()),
+            GameMode::Mania => typed_programs(ctx, &mut rng, mname, &pred, text, "Mania", &sd, &|| ManiaGradualDifficulty::new(d.clone(), &map).ok()),
         }
     }
 
